@@ -37,6 +37,23 @@
 //! exact lengths), e.g. first_value(struct) after merge_batch: native 592 bytes, foreign 412.
 //!
 //! Non-trivial: at least one native evaluate/state produced a non-NULL value that was compared with F.
+//!
+//! GENUINE FINDING `udaf-default-value-not-carried` (open in /verif/known_findings.json; cases
+//! regressions/C45/c45b/ and regressions/C45/c45c/; repair fixes/C45-ffi-udaf-default-value.diff):
+//! `FFI_AggregateUDF` has no entry for `AggregateUDFImpl::default_value`; `ForeignAggregateUDF` answers NULL
+//! where count / regr_count / approx_distinct answer 0. The optimizer substitutes that value when it
+//! decorrelates a scalar subquery, so a foreign `count` in `WHERE x <> (SELECT count(*) .. correlated)` gives
+//! wrong rows (found by c45c). The comparison is made for every case; its violation is raised last and matched
+//! by `known_signature`, so the affected functions keep their accumulator coverage.
+//! Native panics (avg(Duration) over an empty group divides by zero in the groups accumulator) end the
+//! affected section with a `native-panic:` label before the foreign object is called.
+//!
+//! Sensitivity probes (probes/probes.diff via tools/mutrun, quick tier):
+//!  p6  provider-side merge_batch calls update_batch   → the native accumulator panics inside the extern "C" entry:
+//!      process abort (exit 134; `./check` reports exit 2, not a violation) — detected as a crash, not as a verdict
+//!  p7  ForeignGroupsAccumulator drops the filter       → VIOLATION "approx_distinct(..): groups state(All): .."
+//!  p8  FFI_EmitTo::First(n) converted to All           → VIOLATION "avg(Dec(25,4)): groups state(First(3)): .."
+//!  p14 ForeignAggregateUDF::state_fields drops DISTINCT → VIOLATION "bit_xor(DISTINCT I8): state_fields: .."
 use crate::vals::*;
 use crate::{FOREIGN_MARKER_NOTE, harness_marker};
 use arrow::array::{Array, ArrayRef, BooleanArray, Int64Array};
